@@ -103,7 +103,7 @@ def _apply(kind, verdicts, text):
     return cur, None, ran
 
 
-def _call_and_check(prefix_msgs):
+def _call_and_check(prefix_msgs, state=None):
     """One generate call with the slice's options after the given earlier messages; returns (why, response)."""
     Rec.log = []
     LLM.reset(script=["  ask question", '  "LLM says hi"'])
@@ -115,7 +115,7 @@ def _call_and_check(prefix_msgs):
     why = None
     res = None
     try:
-        res = rails.generate(APP, msgs, options=_options())
+        res = rails.generate(APP, msgs, options=_options(), state=state)
     except rails.Escaped as e:
         why = "generate raised %s" % e
     if why is None:
@@ -224,6 +224,35 @@ def selected_second_call(a0: int, a1: int, b0: int, b1: int) -> bool:
     return why is None
 
 
+def selected_after_blocked_call(a0: int, a1: int, b0: int, b1: int) -> bool:
+    """
+    The same table for a call that continues, through the explicit `state`, a conversation whose first call ran with `rails=["input"]` and was blocked by the
+    input rail (a predefined refusal was produced while the output rails were disabled).
+    pre: 0 <= a0 <= 2 and 0 <= a1 <= 2 and 0 <= b0 <= 2 and 0 <= b1 <= 2
+    pre: N > 1 or (a1 == 0 and b1 == 0)
+    post: _
+    """
+    global LAST_INFO
+    stubs.reset()
+    rails.reset_app(APP)
+    with rails.untraced():  # nothing symbolic in the first call
+        Rec.vin = [1] * N
+        Rec.vout = [0] * N
+        Rec.log = []
+        LLM.reset(script=[])
+        first = rails.generate(APP, [{"role": "user", "content": "USER TEXT"}], options={"rails": ["input"]}, state={})
+    Rec.vin = [a0, a1][:N]
+    Rec.vout = [b0, b1][:N]
+    if first.response != [{"role": "assistant", "content": "REFUSED_IN1"}]:
+        why, res = "first (input-only, blocked) call: unexpected reply %r" % (first.response,), None
+    else:
+        why, res = _call_and_check([], state=first.state)
+    if not rails.is_tracing():
+        LAST_INFO = {"first_call": first.response, "options_second_call": _options(), "verdicts": {"input": [int(x) for x in Rec.vin], "output": [int(x) for x in Rec.vout]},
+                     "response": getattr(res, "response", None), "observed": list(Rec.log), "why": why}
+    return why is None
+
+
 def options_twin(a0: int, a1: int, b0: int, b1: int) -> bool:
     """
     Twin: claims an output rail never blocks (must be refuted when output rails are enabled).
@@ -259,6 +288,9 @@ SPEC = {
                    {"slice": {"mask": 1, "form": "list", "n": 1}, "args": dict(a0=1, a1=0, b0=0, b1=0)}]},
         {"fn": "selected_second_call", "tiers": ("quick",), "slices": [{"mask": m, "form": "list", "n": 1} for m in (1, 8, 9, 11)], "tcond": 900, "tpath": 180, "bound": "second call on one instance, 4 subsets",
          "smoke": [{"slice": {"mask": 1, "form": "list", "n": 1}, "args": dict(a0=2, a1=0, b0=0, b1=0)}]},
+        {"fn": "selected_after_blocked_call", "tiers": ("quick",), "slices": [{"mask": m, "form": "list", "n": 1} for m in (9, 8, 15)], "tcond": 900, "tpath": 180, "bound": "call continuing a blocked input-only call through `state`, 3 subsets",
+         "smoke": [{"slice": {"mask": 9, "form": "list", "n": 1}, "args": dict(a0=0, a1=0, b0=1, b1=0)}]},
+        {"fn": "selected_after_blocked_call", "tiers": ("thorough",), "slices": [{"mask": m, "form": "dict", "n": 1} for m in range(1, 16)], "tcond": 1800, "tpath": 180, "bound": "all subsets"},
         {"fn": "selected_second_call", "tiers": ("thorough",), "slices": [{"mask": m, "form": "dict", "n": 1} for m in range(1, 16)], "tcond": 1800, "tpath": 180, "bound": "second call on one instance, all subsets"},
         {"fn": "selected", "tiers": ("thorough",), "slices": [{"mask": m, "form": f, "n": 2} for m in range(1, 16) for f in ("list", "dict")], "tcond": 3000, "tpath": 180, "bound": "15 subsets x 2 forms, 2 rails per category"},
         {"fn": "options_twin", "expect": "counterexample", "slices": [{"mask": 9, "form": "list", "n": 1}], "tcond": 600, "tpath": 120, "bound": "twin"},
